@@ -10,7 +10,12 @@
       [C12_front_half_total]: it ends in accepted / error value / no-progress error, nothing else;
     - checked arithmetic: sizes, offsets and the alignment lcm go through [checked_mul] /
       [checked_add] and yield "defer" / "error" on overflow, never a wrapped value
-      ([C12_no_wraparound]).
+      ([C12_no_wraparound]);
+    - the back end's only recursion, the walk over the base-class hierarchy, is given 1 + #registry
+      entries of fuel: [C12_hierarchy_fuel_suffices] / [C12_emitter_fuel_suffices] (HierarchyFuel.v)
+      -- on every accepted build of a collision-free clean input that fuel is enough, i.e. the
+      model's "hierarchy fuel exhausted" outcome (which stands for unbounded recursion of
+      dfs_hierarchy in the real code) is unreachable in [write_all].
     What the model cannot exhibit -- the lexer (proc_macro2), syn's recursion, allocation, wall-clock
     time, panics inside format_ident!/prettyplease -- is decided by the monitor only: every generated
     input (token soup, mutated valid files, boundary integers in every numeric position, deep nesting,
@@ -19,6 +24,8 @@
 From Coq Require Import List NArith ZArith Bool String Lia.
 From PyxisModel Require Import Base Grammar SemTypes Registry Sem SemLemmas TotalityLemmas NoPanic.
 Import ListNotations.
+
+From PyxisModel Require EmitLocal HierarchyFuel.
 
 Theorem C12_loop_terminates : forall order st,
   (forall l, List.length (order l) = List.length l) -> sem_build order st <> BFuel.
@@ -66,3 +73,31 @@ Theorem C12_front_half_total : forall order ptr mods,
   end.
 Proof. exact pyxis_resolve_total. Qed.
 Print Assumptions C12_front_half_total.
+
+Theorem C12_emitter_fuel_suffices :
+  forall (ptr : N) (mods : list (path * gmodule)) (st0 : sstate) (order : list path -> list path)
+      (t : sstate),
+    WholeBuild.input_state ptr mods = Ok st0 ->
+    WholeBuild.collision_free (st_reg st0) ->
+    OrderIndep.clean_stateb st0 = true ->
+    (forall l : list path, Permutation.Permutation (order l) l) ->
+    pyxis_resolve order ptr mods = BOk t -> EmitLocal.not_fuel (Emit.write_all t).
+Proof. exact HierarchyFuel.write_all_not_fuel. Qed.
+Print Assumptions C12_emitter_fuel_suffices.
+
+Theorem C12_hierarchy_fuel_suffices :
+  forall (ptr : N) (mods : list (path * gmodule)) (st0 : sstate) (order : list path -> list path)
+      (t : sstate),
+    WholeBuild.input_state ptr mods = Ok st0 ->
+    WholeBuild.collision_free (st_reg st0) ->
+    OrderIndep.clean_stateb st0 = true ->
+    (forall l : list path, Permutation.Permutation (order l) l) ->
+    pyxis_resolve order ptr mods = BOk t ->
+    forall (p : path) (it : item) (rs : resolved) (td : type_def) (fields : list string),
+    reg_get (st_reg t) p = Some it ->
+    item_resolved it = Some rs ->
+    rs_inner rs = IType td ->
+    EmitLocal.not_fuel
+      (Emit.dfs_hierarchy (S (Datatypes.length (reg_types (st_reg t)))) (st_reg t) td fields).
+Proof. exact HierarchyFuel.hierarchy_fuel_enough. Qed.
+Print Assumptions C12_hierarchy_fuel_suffices.
